@@ -58,6 +58,14 @@ checks.update({
          "PARTIAL claim (DESIGN.md section 0). What the simulator decides: on live connections each body is parsed by the per-connection handler object that has already parsed every earlier body of its type, from the connection's real buffers (other traffic behind the slice), under every segmentation; no decoder or String method may panic, and for every delivered message the live result must equal the result of a fresh receiver on an exact-capacity copy (mismatch classified beyond_slice / receiver_history). Bodies come from well-formed, inconsistent-count/length and mutated pools for all 17 terminal message types and five dialects. Not decided: totality over all byte strings (sampled only), jt1078.Decode and the vendor extension parsers unless reached through a registered handler.",
          "uses the repository against itself on purpose (independence, not correctness of values)"),
 })
+checks.update({
+ "C18": ("exploration", "5/C18", "Go race detector evaluated on seeded deterministic schedules (token scheduler's own synchronisation hidden with runtime.RaceDisable + //go:norace, net ordering reproduced with RaceReleaseMerge/RaceAcquire), reports filtered to application frames",
+         "The C06, C09, C11, C12, C13 scenarios plus a shared-header scenario (first message = first packet of a transfer, re-request while commands are issued) run in a -race build of the simulator; because the scheduler's hand-offs are invisible to the detector it evaluates the application's own happens-before relation (channels, go, sync.Once, and the Write->Read ordering real sockets give) on each schedule. A report counts only if on both sides the innermost frame that is not runtime/stdlib/transparent shim lies in service, attachment, protocol or in the callback that stands in for user handler code; each report is confirmed by replaying its schedule in a fresh process. Identity of a finding = unordered pair of application functions.",
+         "relies on RaceDisable ignoring synchronisation but not memory events; schedules sampled; ~8x slower than DET mode, so fewer runs"),
+ "C20": ("exploration", "5/C20", "deterministic simulation: frames generated by the terminal simulator are sent to the live simulated server; the server's reply bytes are compared with ExpectedReply for the platform serial it used",
+         "PARTIAL claim (DESIGN.md section 0): decides 'the predicted reply equals the reply the real server sends' for all three versions, phones of 1-12 (20) digits incl. ones whose template checksum is 0x7e/0x7d, default and custom bodies, under random segmentation and schedules, with a serial wrap-around run in the thorough tier. The decode/serial precondition on every generated frame (reference codec) rides along; the pure 'body re-encodes identically' clause is not decided here.",
+         "pairs replies with requests in order using the C06 reference model; a run in which the server disagrees with that model is C06's business and is skipped here"),
+})
 pending = {}
 all_ids = ["C%02d" % i for i in range(1, 21)]
 man = {
@@ -73,6 +81,8 @@ man = {
  "engines": [
    {"name": "det-sim", "path": "sim/", "serves_properties": sorted(k for k in checks if k != "C18"),
     "kind_free_text": "deterministic simulation with fault injection: token scheduler on testing/synctest, simulated net/fs/clock, seeded plans and schedules, replay + shrinking"},
+   {"name": "race-sim", "path": "sim/", "serves_properties": ["C18"],
+    "kind_free_text": "the same simulator built with -race: the Go race detector judges each seeded deterministic schedule"},
  ],
  "checks": [],
  "not_applicable": [],
